@@ -60,6 +60,13 @@ class Obj:
     pass
 
 
+class FalsyObj(Obj):
+    """pooled objects may be anything, falsy things included (an empty container-like connection object)"""
+
+    def __bool__(self):
+        return False
+
+
 class _ConstTime:
     """pool clock: constant, or (tick > 0) advancing by `tick` seconds at every reading, so that idle expiry happens
     inside a schedule deterministically"""
@@ -103,7 +110,7 @@ def run_case(case):
     try:
         if harness == "a":
             def mk():
-                o = Obj()
+                o = FalsyObj() if case.get("falsy") else Obj()
                 created.append(o)
                 return o
             pool = P.ObjectPool(mk, after_remove=lambda o: removed.append(o), max_size=max_size,
@@ -123,6 +130,9 @@ def run_case(case):
             else:
                 pc = PooledClient(("mc1", 11211), socket_module=net, max_pool_size=max_size, lock_generator=make_lock, default_noreply=False,
                                   pool_idle_timeout=case.get("idle", 0))
+                if case.get("falsy"):
+                    from vlib import subclasses
+                    pc.client_class = subclasses.FalsyClient
                 pool = pc.client_pool
             orig_creator = pool._obj_creator
 
@@ -376,6 +386,11 @@ def bounded_cases(tier, seed):
         confs.append({"harness": "b", "threads": [["setrefused"], ["set"]], "max_size": ms, "two_in_quick": ms == 1})
         confs.append({"harness": "b", "threads": [["setmanyrefused"], ["get"]], "max_size": ms})
     confs.append({"harness": "b", "threads": [["setrefused"], ["setmanyrefused"]], "max_size": 2})
+    # pooled objects that are falsy (an object pool holds whatever its creator returns; a client_class may define __len__)
+    for ms in (1, 2):
+        confs.append({"harness": "a", "threads": [["gr", "gr"], ["gr"]], "max_size": ms, "idle": 0, "falsy": True})
+        confs.append({"harness": "b", "threads": [["set", "get"], ["get"]], "max_size": ms, "falsy": True})
+    confs.append({"harness": "a", "threads": [["ctx", "gd"], ["gr", "clear"]], "max_size": 2, "idle": 5, "tick": 3, "falsy": True})
     # a HashClient(use_pooling=True) shared by two threads (the hash client's own code is pre-empted too)
     for ms in (1, 2):
         confs.append({"harness": "h", "threads": [["set"], ["get"]], "max_size": ms})
@@ -428,7 +443,8 @@ def random_strategy(tier):
     h = st.fixed_dictionaries({"harness": st.just("h"), "threads": st.lists(st.lists(st.sampled_from(["set", "get", "failget", "quit"]), min_size=1, max_size=3), min_size=2, max_size=3),
                                "max_size": st.sampled_from([1, 2]), "fail_recv": st.lists(st.integers(0, 5), max_size=2, unique=True), "choices": choices,
                                "first": st.integers(0, 2), "idle": st.sampled_from([0, 0, 5]), "tick": st.sampled_from([0, 3, 6]), "retry_attempts": st.sampled_from([0, 1, 2])})
-    return st.one_of(a, b, b, c, h)
+    falsy = st.one_of(a, b).flatmap(lambda d: st.just(dict(d, falsy=True)))
+    return st.one_of(a, b, b, c, h, falsy)
 
 
 PARTS = [
